@@ -159,33 +159,46 @@ def build_case(seed: int, stream: int) -> dict:
         first_model = first_model or gen.model
         docs.append(M.to_json(gen.model, decorate=rng.random() < 0.3, rng=rng))
         expects.append(M.expectations(gen.model))
+    twin = None
     if stream % 7 == 5:
         # the same declarations under the same names, the namespaces written differently:
         # `namespace My.Project {}` where the other document nests `My { Project {} }`
         other = reshape_namespaces(first_model)
-        docs[-1] = M.to_json(other)
-        expects[-1] = M.expectations(other)
-    if stream % 7 == 3:     # the same document twice: identical parses must not merge either
+        twin = len(docs) - 1
+        docs[twin] = M.to_json(other)
+        expects[twin] = M.expectations(other)
+    elif stream % 7 == 3:   # the same document twice: identical parses must not merge either
         docs[-1] = json.loads(json.dumps(docs[0]))
         expects[-1] = json.loads(json.dumps(expects[0]))
+    empty = None
+    if stream % 5 == 2:
+        # an empty model file (a root without elements) is a document too
+        docs.append(M.to_json(M.Model([])))
+        expects.append(M.expectations(M.Model([])))
+        empty = len(docs) - 1
+    refused = None
     if stream % 4 == 1:
         # a document the parser refuses half-way through, deep inside its namespaces: what a
         # failed parse leaves behind in the instance must not leak into later parses
         docs.append(malformed_variant(docs[0]))
         expects.append(None)
-        n_docs += 1
-    ops = gen_history(rng, n_docs)
-    if expects[-1] is None:
+        refused = len(docs) - 1
+    ops = gen_history(rng, len(docs))
+    slot = next((o[1] for o in ops if o[0] in ('new', 'new_empty')), 0)
+    if refused is not None:
         # and for certain: refuse on an instance, then let the same instance parse good ones
-        slot = next((o[1] for o in ops if o[0] in ('new', 'new_empty')), 0)
-        ops += [['load', slot, n_docs - 1], ['process', slot], ['load', slot, 0], ['process', slot],
-                ['new', slot, n_docs - 1, 'str'], ['process', slot], ['load', slot, 1],
+        ops += [['load', slot, refused], ['process', slot], ['load', slot, 0], ['process', slot],
+                ['new', slot, refused, 'str'], ['process', slot], ['load', slot, 1],
                 ['process', slot]]
-    if stream % 7 == 5 and expects[-1] is not None:
+    if empty is not None:
+        # and for certain: an instance that has parsed a full document is given the empty one
+        ops += [['load', slot, 0], ['process', slot], ['load', slot, empty], ['process', slot],
+                ['new', slot, 1, 'bytes'], ['process', slot], ['load', slot, empty],
+                ['process', slot]]
+    if twin is not None:
         # and for certain: both spellings parsed in one process, in both orders
-        last = len(docs) - 1
-        ops += [['new', 0, 0, 'str'], ['process', 0], ['new', 1, last, 'bytes'], ['process', 1],
-                ['load', 0, last], ['process', 0], ['load', 1, 0], ['process', 1]]
+        ops += [['new', 0, 0, 'str'], ['process', 0], ['new', 1, twin, 'bytes'], ['process', 1],
+                ['load', 0, twin], ['process', 0], ['load', 1, 0], ['process', 1]]
     return {'docs': docs, 'expects': expects, 'ops': ops,
             'child_ref': stream % CHILD_EVERY == 0, 'stream': stream,
             'paths': ['per-doc', 'one-file', 'relative'][stream % 3]}
